@@ -32,6 +32,10 @@ type BFS struct {
 	Key func(in Instance) string
 	// Check is the state oracle; it may disturb/destroy the instance.
 	Check func(in Instance, path []string)
+	// EveryTransition: Check also judges the STEP that led to the state (it looks at what the
+	// last operation did), so it must run for every transition - also for those whose
+	// resulting state has been seen before and is not expanded again.
+	EveryTransition bool
 	// Close releases resources of an instance.
 	Close func(in Instance)
 	// Fork (optional) returns an independent copy of a live instance (snapshot +
@@ -216,6 +220,9 @@ func (b *BFS) Run() {
 							k := stateID(b.Key(in))
 							if _, dup := seen.LoadOrStore(k, true); dup {
 								atomic.AddInt64(&b.Dups, 1)
+								if b.EveryTransition {
+									b.Check(in, np)
+								}
 								return
 							}
 							atomic.AddInt64(&b.States, 1)
